@@ -17,7 +17,8 @@ THEOREMS = ["Ymq.C10." + t for t in (
     "reduce_spec add_assign_spec add_small_spec sub_assign_spec butterfly_spec shl_spec shr_spec sqrt2_sq twiddle_spec root_pow "
     "root_half crt_unique crt_value crt_q_estimate_partial ntt_table_ok dft_conv "
     "basic_mul_spec karatsuba_spec karatsuba_domain mul_karatsuba_spec mul_karatsuba_zmod "
-    "middlemul_spec middlemul_pub_spec inv_mod_xn_spec div_mod_xn_spec div_mod_xn_zmod").split()]
+    "middlemul_spec middlemul_pub_spec inv_mod_xn_spec div_mod_xn_spec div_mod_xn_zmod "
+    "product_tree_spec from_roots_spec").split()]
 HYPOTHESES = []
 PROFILES = ["release", "chk"]
 TIMEOUT = 60.0
